@@ -298,3 +298,24 @@ def compare(case, impl, model):
     if len(a) != len(b) or a[:2] != b[:2] or a[0] != 'ok':
         return False
     return all(same_float_tok(x, y) for x, y in zip(a[2:], b[2:]))
+
+
+# ---- extraction cross-check: the same cases evaluated inside Coq by vm_compute
+from tools import xenc
+COQ_IMPORTS = 'Base.XEnc Model.Hessen'
+XCHECK_N = 200
+
+
+def coq_term(case):
+    h, w, rows = parse(case)
+    # thinned below XCHECK_N so that every eligible case is taken; functional matrices are slow under vm_compute,
+    # so 7x7..10x10 are thinned harder; the (cheap) non-square cases are all kept
+    if h == w and not xenc.keep(case, 30 if h >= 7 else 9):
+        return None
+    # Ok (H, Q) -> 0 :: bits of H row-major ++ bits of Q row-major (the 'n' the driver prints is an echo of the input)
+    return ('enc_res (fun p => map float_bits (concat (fst p) ++ concat (snd p))) '
+            '(@hessenberg_lists float FNum %d%%nat %d%%nat %s)' % (h, w, xenc.cq_fmat(rows)))
+
+
+def encode_result(case, model_line):
+    return xenc.enc_line(model_line, lambda t: [xenc.float_tok_bits(x) for x in t[1:]])
